@@ -34,29 +34,25 @@ theorem nrm_eq_raw {W : World V} (LL : LowerLaws W) (P : Parser V) {k k' : Key}
     exfalso; apply hk; rw [← h, LL.idem]; exact hc
   · rw [nrm_raw hc] at h; exact h
 
-theorem ffMergeStep_ci [DecidableEq V] {W : World V} {P : Parser V} (m : Merged V) {kv : Key × V}
-    (h : W.lower kv.1 ∈ P.ciNames) :
+theorem lookupKey_eq_nrm (W : World V) (P : Parser V) (k : Key) : lookupKey W P k = nrm W P k := by
+  unfold lookupKey nrm
+  by_cases h : W.lower k ∈ P.ciNames <;> simp [h]
+
+theorem ffMergeStep_eq [DecidableEq V] {W : World V} {P : Parser V} (m : Merged V) (kv : Key × V) :
     ffMergeStep W P m kv =
-      match dget (W.lower kv.1) m.data with
-      | some v0 => if v0 ≠ kv.2 ∧ W.lower kv.1 ∉ m.conflicts
-                   then { m with conflicts := m.conflicts ++ [W.lower kv.1] } else m
-      | none => { m with data := dset (W.lower kv.1) kv.2 m.data } := by
+      match dget (nrm W P kv.1) m.data with
+      | some v0 => if v0 ≠ kv.2 ∧ nrm W P kv.1 ∉ m.conflicts
+                   then { m with conflicts := m.conflicts ++ [nrm W P kv.1] } else m
+      | none => { m with data := dset (nrm W P kv.1) kv.2 m.data } := by
   unfold ffMergeStep
-  have : P.ciNames.contains (W.lower kv.1) = true := by simpa using h
-  simp only [this, if_true]
-  cases dget (W.lower kv.1) m.data with
+  simp only [lookupKey_eq_nrm]
+  cases dget (nrm W P kv.1) m.data with
   | none => rfl
   | some v0 =>
     simp only
-    by_cases hc : W.lower kv.1 ∈ m.conflicts
+    by_cases hc : nrm W P kv.1 ∈ m.conflicts
     · simp [hc]
     · simp [hc]
-
-theorem ffMergeStep_raw [DecidableEq V] {W : World V} {P : Parser V} (m : Merged V) {kv : Key × V}
-    (h : W.lower kv.1 ∉ P.ciNames) :
-    ffMergeStep W P m kv = { m with data := dset kv.1 kv.2 m.data } := by
-  unfold ffMergeStep
-  simp [h]
 
 /-! ### the lower-casing pass -/
 
@@ -74,106 +70,72 @@ theorem eq_nil_of_head?_none {α : Type} {l : List α} (h : l.head? = none) : l 
   | nil => rfl
   | cons y ys => simp at h
 
-theorem mergeInv_step [DecidableEq V] {W : World V} (LL : LowerLaws W) {P : Parser V} {data : List (Key × V)}
-    {m : Merged V} (kv : Key × V) (hnew : kv.1 ∉ data.map (·.1)) (inv : MergeInv W P data m) :
+theorem mergeInv_step [DecidableEq V] {W : World V} {P : Parser V} {data : List (Key × V)}
+    {m : Merged V} (kv : Key × V) (inv : MergeInv W P data m) :
     MergeInv W P (data ++ [kv]) (ffMergeStep W P m kv) := by
-  by_cases hc : W.lower kv.1 ∈ P.ciNames
-  · -- case-insensitive key: stored under its lower-cased form, the first one wins
-    have hn : nrm W P kv.1 = W.lower kv.1 := nrm_ci hc
-    rw [ffMergeStep_ci m hc]
-    cases hd : dget (W.lower kv.1) m.data with
-    | some v0 =>
-      have hh : (valuesAt W P data (W.lower kv.1)).head? = some v0 := by rw [← inv.first, hd]
-      simp only
-      have hdata : ∀ m' : Merged V, m'.data = m.data → ∀ a, dget a m'.data = (valuesAt W P (data ++ [kv]) a).head? := by
-        intro m' hm' a
-        rw [hm']
-        by_cases ha : nrm W P kv.1 = a
-        · rw [valuesAt_snoc_eq W P data kv ha, inv.first]
-          rw [hn] at ha; subst ha
-          rw [head?_snoc_of_some hh, hh]
-        · rw [valuesAt_snoc_ne W P data kv ha, inv.first]
-      constructor
-      · intro a
-        apply hdata
-        split <;> rfl
-      · intro a
-        by_cases ha : nrm W P kv.1 = a
-        · rw [valuesAt_snoc_eq W P data kv ha]
-          rw [hn] at ha; subst ha
-          rw [head?_snoc_of_some hh]
-          by_cases hne : v0 ≠ kv.2 ∧ W.lower kv.1 ∉ m.conflicts
-          · rw [if_pos hne]
-            constructor
-            · intro _
-              exact ⟨kv.2, by simp, by intro e; exact hne.1 (Option.some.inj e).symm⟩
-            · intro _; simp
-          · rw [if_neg hne, inv.conf, hh]
-            constructor
-            · rintro ⟨v, hv, hvn⟩; exact ⟨v, by simp [hv], hvn⟩
-            · rintro ⟨v, hv, hvn⟩
-              rcases List.mem_append.mp hv with hv | hv
-              · exact ⟨v, hv, hvn⟩
-              · have hv : v = kv.2 := by simpa using hv
-                subst hv
-                have hvn' : v0 ≠ kv.2 := fun e => hvn (by rw [e])
-                have hin : W.lower kv.1 ∈ m.conflicts := by
-                  by_cases hin : W.lower kv.1 ∈ m.conflicts
-                  · exact hin
-                  · exact absurd ⟨hvn', hin⟩ hne
-                have := (inv.conf (W.lower kv.1)).1 hin
-                rw [hh] at this; exact this
-        · rw [valuesAt_snoc_ne W P data kv ha]
-          have hane : ¬ a = W.lower kv.1 := fun e => ha (by rw [hn, e])
-          split
-          · simp only [List.mem_append, List.mem_singleton, hane, or_false]; exact inv.conf a
-          · exact inv.conf a
-    | none =>
-      have hh : (valuesAt W P data (W.lower kv.1)).head? = none := by rw [← inv.first, hd]
-      have hnil : valuesAt W P data (W.lower kv.1) = [] := eq_nil_of_head?_none hh
-      simp only
-      constructor
-      · intro a
-        rw [dget_dset]
-        by_cases ha : W.lower kv.1 = a
-        · have ha' : nrm W P kv.1 = a := by rw [hn]; exact ha
-          rw [valuesAt_snoc_eq W P data kv ha']
-          subst ha; simp [hnil]
-        · have ha' : ¬ nrm W P kv.1 = a := by rw [hn]; exact ha
-          rw [valuesAt_snoc_ne W P data kv ha', if_neg ha, inv.first]
-      · intro a
-        by_cases ha : nrm W P kv.1 = a
-        · rw [valuesAt_snoc_eq W P data kv ha]
-          rw [hn] at ha; subst ha
-          rw [inv.conf, hnil]
-          simp
-        · rw [valuesAt_snoc_ne W P data kv ha]; exact inv.conf a
-  · -- other keys are kept as they are
-    have hn : nrm W P kv.1 = kv.1 := nrm_raw hc
-    rw [ffMergeStep_raw m hc]
-    have hnil : valuesAt W P data kv.1 = [] := by
-      unfold valuesAt
-      rw [List.filterMap_eq_nil_iff]
-      intro kv' hkv'
-      by_cases he : nrm W P kv'.1 = kv.1
-      · exfalso; apply hnew
-        rw [← nrm_eq_raw LL P hc he]; exact List.mem_map_of_mem (f := (·.1)) hkv'
-      · simp [he]
+  rw [ffMergeStep_eq m kv]
+  cases hd : dget (nrm W P kv.1) m.data with
+  | some v0 =>
+    have hh : (valuesAt W P data (nrm W P kv.1)).head? = some v0 := by rw [← inv.first, hd]
+    simp only
+    have hdata : ∀ m' : Merged V, m'.data = m.data → ∀ a, dget a m'.data = (valuesAt W P (data ++ [kv]) a).head? := by
+      intro m' hm' a
+      rw [hm']
+      by_cases ha : nrm W P kv.1 = a
+      · rw [valuesAt_snoc_eq W P data kv ha, inv.first]
+        subst ha
+        rw [head?_snoc_of_some hh, hh]
+      · rw [valuesAt_snoc_ne W P data kv ha, inv.first]
     constructor
     · intro a
-      simp only
-      rw [dget_dset]
-      by_cases ha : kv.1 = a
-      · have ha' : nrm W P kv.1 = a := by rw [hn]; exact ha
-        rw [valuesAt_snoc_eq W P data kv ha']
-        subst ha; simp [hnil]
-      · have ha' : ¬ nrm W P kv.1 = a := by rw [hn]; exact ha
-        rw [valuesAt_snoc_ne W P data kv ha', if_neg ha, inv.first]
+      apply hdata
+      split <;> rfl
     · intro a
-      simp only
       by_cases ha : nrm W P kv.1 = a
       · rw [valuesAt_snoc_eq W P data kv ha]
-        rw [hn] at ha; subst ha
+        subst ha
+        rw [head?_snoc_of_some hh]
+        by_cases hne : v0 ≠ kv.2 ∧ nrm W P kv.1 ∉ m.conflicts
+        · rw [if_pos hne]
+          constructor
+          · intro _
+            exact ⟨kv.2, by simp, by intro e; exact hne.1 (Option.some.inj e).symm⟩
+          · intro _; simp
+        · rw [if_neg hne, inv.conf, hh]
+          constructor
+          · rintro ⟨v, hv, hvn⟩; exact ⟨v, by simp [hv], hvn⟩
+          · rintro ⟨v, hv, hvn⟩
+            rcases List.mem_append.mp hv with hv | hv
+            · exact ⟨v, hv, hvn⟩
+            · have hv : v = kv.2 := by simpa using hv
+              subst hv
+              have hvn' : v0 ≠ kv.2 := fun e => hvn (by rw [e])
+              have hin : nrm W P kv.1 ∈ m.conflicts := by
+                by_cases hin : nrm W P kv.1 ∈ m.conflicts
+                · exact hin
+                · exact absurd ⟨hvn', hin⟩ hne
+              have := (inv.conf (nrm W P kv.1)).1 hin
+              rw [hh] at this; exact this
+      · rw [valuesAt_snoc_ne W P data kv ha]
+        have hane : ¬ a = nrm W P kv.1 := fun e => ha e.symm
+        split
+        · simp only [List.mem_append, List.mem_singleton, hane, or_false]; exact inv.conf a
+        · exact inv.conf a
+  | none =>
+    have hh : (valuesAt W P data (nrm W P kv.1)).head? = none := by rw [← inv.first, hd]
+    have hnil : valuesAt W P data (nrm W P kv.1) = [] := eq_nil_of_head?_none hh
+    simp only
+    constructor
+    · intro a
+      rw [dget_dset]
+      by_cases ha : nrm W P kv.1 = a
+      · rw [valuesAt_snoc_eq W P data kv ha]
+        subst ha; simp [hnil]
+      · rw [valuesAt_snoc_ne W P data kv ha, if_neg ha, inv.first]
+    · intro a
+      by_cases ha : nrm W P kv.1 = a
+      · rw [valuesAt_snoc_eq W P data kv ha]
+        subst ha
         rw [inv.conf, hnil]
         simp
       · rw [valuesAt_snoc_ne W P data kv ha]; exact inv.conf a
@@ -186,9 +148,7 @@ theorem mergeInv_fold [DecidableEq V] {W : World V} (LL : LowerLaws W) {P : Pars
     rw [List.foldl_append]
     simp only [List.foldl_cons, List.foldl_nil]
     rw [List.map_append, List.nodup_append] at hnd
-    apply mergeInv_step LL kv
-    · intro hc; exact hnd.2.2 _ hc _ (by simp) rfl
-    · exact ih hnd.1
+    exact mergeInv_step kv (ih hnd.1)
 
 theorem mergeInv [DecidableEq V] {W : World V} (LL : LowerLaws W) {P : Parser V} (data : List (Key × V))
     (hnd : (data.map (·.1)).Nodup) : MergeInv W P data (ffMerge W P data) := by
@@ -492,67 +452,6 @@ theorem valuesAt_nil_of_new {W : World V} (LL : LowerLaws W) (P : Parser V) {dat
     rw [← nrm_eq_raw LL P hc he]; exact List.mem_map_of_mem (f := (·.1)) hkv'
   · simp [he]
 
-/-- keys that are not case-insensitive names pass through the lower-casing pass untouched, in order -/
-theorem merge_filter [DecidableEq V] {W : World V} (LL : LowerLaws W) (P : Parser V) (data : List (Key × V))
-    (hnd : (data.map (·.1)).Nodup) (q : Key → Bool) (hq : ∀ k, q k = true → W.lower k ∉ P.ciNames) :
-    (ffMerge W P data).data.filter (fun kv => q kv.1) = data.filter (fun kv => q kv.1) := by
-  unfold ffMerge
-  by_cases he : P.ciNames.isEmpty = true
-  · simp [he]
-  · simp only [he, Bool.false_eq_true, if_false]
-    induction data using Utv.List.rev_ind with
-    | nil => rfl
-    | snoc l kv ih =>
-      rw [List.map_append, List.nodup_append] at hnd
-      have hnew : kv.1 ∉ l.map (·.1) := fun hc => hnd.2.2 _ hc _ (by simp) rfl
-      have inv := mergeInv_fold LL (P := P) l hnd.1
-      rw [List.foldl_append]
-      simp only [List.foldl_cons, List.foldl_nil, List.filter_append]
-      by_cases hc : W.lower kv.1 ∈ P.ciNames
-      · have hq1 : q kv.1 = false := by
-          cases h : q kv.1 with
-          | false => rfl
-          | true => exact absurd hc (hq _ h)
-        have hq2 : q (W.lower kv.1) = false := by
-          cases h : q (W.lower kv.1) with
-          | false => rfl
-          | true => exact absurd (by rw [LL.idem]; exact hc) (hq _ h)
-        rw [ffMergeStep_ci _ hc]
-        simp only [List.filter_cons, hq1, Bool.false_eq_true, if_false, List.filter_nil, List.append_nil]
-        cases hd : dget (W.lower kv.1) (List.foldl (ffMergeStep W P) {} l).data with
-        | some v0 =>
-          simp only
-          split <;> exact ih hnd.1
-        | none =>
-          simp only
-          rw [dset_of_not_mem _ _ _ ((dget_eq_none_iff _ _).1 hd), List.filter_append]
-          simp [hq2, ih hnd.1]
-      · rw [ffMergeStep_raw _ hc]
-        simp only
-        have hd : dget kv.1 (List.foldl (ffMergeStep W P) {} l).data = none := by
-          rw [inv.first, valuesAt_nil_of_new LL P hc hnew]; rfl
-        rw [dset_of_not_mem _ _ _ ((dget_eq_none_iff _ _).1 hd), List.filter_append, ih hnd.1]
-
-/-- after the pass every key is the normal form of an input key -/
-theorem merge_keys [DecidableEq V] {W : World V} (LL : LowerLaws W) (P : Parser V) (data : List (Key × V))
-    (hnd : (data.map (·.1)).Nodup) {kv : Key × V} (h : kv ∈ (ffMerge W P data).data) :
-    ∃ kv' ∈ data, nrm W P kv'.1 = kv.1 := by
-  have inv := mergeInv LL (P := P) data hnd
-  have hk : kv.1 ∈ (ffMerge W P data).data.map (·.1) := List.mem_map_of_mem (f := (·.1)) h
-  have : dget kv.1 (ffMerge W P data).data ≠ none := by
-    intro e; exact ((dget_eq_none_iff _ _).1 e) hk
-  rw [inv.first] at this
-  cases hv : valuesAt W P data kv.1 with
-  | nil => simp [hv] at this
-  | cons x xs =>
-    have hx : x ∈ valuesAt W P data kv.1 := by rw [hv]; simp
-    unfold valuesAt at hx
-    rw [List.mem_filterMap] at hx
-    obtain ⟨kv', hkv', he⟩ := hx
-    by_cases hn : nrm W P kv'.1 = kv.1
-    · exact ⟨kv', hkv', hn⟩
-    · simp [hn] at he
-
 theorem lower_mem_ciNames_accepts {W : World V} {P : Parser V} (wf : WF W P) {k : Key} (h : W.lower k ∈ P.ciNames) :
     anyAccepts W P k = true := by
   rw [wf.cin, mem_ciNamesOf] at h
@@ -578,11 +477,36 @@ theorem accepts_nrm_iff {W : World V} (LL : LowerLaws W) {P : Parser V} (wf : WF
       · rw [nrm_raw hc] at hcn; exact absurd hcn hc
   · intro h; exact (wf.accepts_alias hf h).1
 
+/-- the lookup key of an input key belongs to a provided field exactly when some field accepts the key -/
+theorem used_lookup_iff [DecidableEq V] {W : World V} (LL : LowerLaws W) {P : Parser V} (wf : WF W P) (o : Opts V)
+    {data : List (Key × V)} {kv : Key × V} (hkv : kv ∈ data) :
+    ((P.fields.filter fun kf => (outOf W o data kf.2).provided).flatMap (·.2.allAliases)).contains (nrm W P kv.1)
+      = anyAccepts W P kv.1 := by
+  rw [Bool.eq_iff_iff]
+  unfold anyAccepts
+  rw [List.contains_iff_mem, List.any_eq_true]
+  simp only [List.mem_flatMap, List.mem_filter]
+  constructor
+  · rintro ⟨kf, ⟨hf, _⟩, hmem⟩
+    refine ⟨kf, hf, ?_⟩
+    rw [accepts_iff, (normKey_eq_iff_nrm LL wf hf hmem kv.1).2 rfl]; exact hmem
+  · rintro ⟨kf, hf, hacc⟩
+    have hm : normKey W kf.2 kv.1 ∈ kf.2.allAliases := (accepts_iff W kf.2 kv.1).1 hacc
+    have hn : nrm W P kv.1 = normKey W kf.2 kv.1 := (normKey_eq_iff_nrm LL wf hf hm kv.1).1 rfl
+    refine ⟨kf, ⟨hf, ?_⟩, by rw [hn]; exact hm⟩
+    unfold outOf; rw [provided_eq, candidates_eq LL wf hf]
+    have : kv.2 ∈ kf.2.allAliases.flatMap (valuesAt W P data) := by
+      rw [List.mem_flatMap]
+      refine ⟨nrm W P kv.1, by rw [hn]; exact hm, ?_⟩
+      unfold valuesAt; rw [List.mem_filterMap]; exact ⟨kv, hkv, by simp⟩
+    cases hl : kf.2.allAliases.flatMap (valuesAt W P data) with
+    | nil => rw [hl] at this; simp at this
+    | cons _ _ => simp
+
 theorem ffAdditions_eq [DecidableEq V] {W : World V} (LL : LowerLaws W) {P : Parser V} (wf : WF W P) (o : Opts V)
-    {data : List (Key × V)} (hnd : (data.map (·.1)).Nodup) (st : St V) :
+    (data : List (Key × V)) (st : St V) :
     ffAdditions W P o
-        ((P.fields.filter fun kf => (outOf W o data kf.2).provided).flatMap (·.2.allAliases))
-        (ffMerge W P data).data st =
+        ((P.fields.filter fun kf => (outOf W o data kf.2).provided).flatMap (·.2.allAliases)) data st =
       { st with result := dupdate st.result (addAll W P o (extras W P data)).1
                 errs := st.errs ++ (addAll W P o (extras W P data)).2 } := by
   unfold ffAdditions
@@ -590,49 +514,26 @@ theorem ffAdditions_eq [DecidableEq V] {W : World V} (LL : LowerLaws W) {P : Par
   · simp [hi, addAll_ignore W P o hi, dupdate]
   · simp only [hi, if_false]
     have hfold : ∀ (used : List Key) (l : List (Key × V)) (init : List (Key × V) × List Err),
-        l.foldl (fun acc kv => if used.contains kv.1 then acc else addStep W P o acc kv) init
-          = (l.filter fun kv => !used.contains kv.1).foldl (addStep W P o) init := by
+        l.foldl (fun acc kv => if used.contains (lookupKey W P kv.1) then acc else addStep W P o acc kv) init
+          = (l.filter fun kv => !used.contains (lookupKey W P kv.1)).foldl (addStep W P o) init := by
       intro used l
       induction l with
       | nil => intro init; rfl
       | cons x xs ih =>
         intro init
         simp only [List.foldl_cons, List.filter_cons]
-        cases hu : used.contains x.1
+        cases hu : used.contains (lookupKey W P x.1)
         · simp only [Bool.false_eq_true, if_false, Bool.not_false, if_true, List.foldl_cons]; exact ih _
         · simp only [if_true, Bool.not_true, Bool.false_eq_true, if_false]; exact ih _
     rw [hfold]
-    have hfilter : (ffMerge W P data).data.filter (fun kv =>
-          !((P.fields.filter fun kf => (outOf W o data kf.2).provided).flatMap (·.2.allAliases)).contains kv.1)
+    have hfilter : data.filter (fun kv =>
+          !((P.fields.filter fun kf => (outOf W o data kf.2).provided).flatMap (·.2.allAliases)).contains
+              (lookupKey W P kv.1))
         = extras W P data := by
       unfold extras
-      rw [← merge_filter LL P data hnd (fun k => !anyAccepts W P k)]
-      · apply List.filter_congr
-        intro kv hkv
-        obtain ⟨kv', hkv', hn⟩ := merge_keys LL P data hnd hkv
-        rw [Bool.eq_iff_iff]
-        simp only [Bool.not_eq_true', List.contains_eq_mem, decide_eq_false_iff_not, List.mem_flatMap,
-          List.mem_filter, not_exists, not_and, and_imp]
-        unfold anyAccepts
-        rw [List.any_eq_false]
-        constructor
-        · intro h kf hf hacc
-          rw [← hn, accepts_nrm_iff LL wf hf] at hacc
-          refine h kf hf ?_ (by rw [← hn]; exact hacc)
-          unfold outOf; rw [provided_eq, candidates_eq LL wf hf]
-          have : kv'.2 ∈ kf.2.allAliases.flatMap (valuesAt W P data) := by
-            rw [List.mem_flatMap]
-            refine ⟨nrm W P kv'.1, hacc, ?_⟩
-            unfold valuesAt; rw [List.mem_filterMap]; exact ⟨kv', hkv', by simp⟩
-          cases hl : kf.2.allAliases.flatMap (valuesAt W P data) with
-          | nil => rw [hl] at this; simp at this
-          | cons _ _ => simp
-        · intro h kf hf _ hmem
-          exact h kf hf ((wf.accepts_alias hf hmem).1)
-      · intro k hk
-        intro hc
-        have := lower_mem_ciNames_accepts wf hc
-        simp [this] at hk
+      apply List.filter_congr
+      intro kv hkv
+      rw [lookupKey_eq_nrm, used_lookup_iff LL wf o hkv]
     rw [hfilter]
     rfl
 
@@ -644,6 +545,6 @@ theorem fieldFirst_eq_ref [DecidableEq V] {W : World V} (LL : LowerLaws W) {P : 
   simp only
   rw [ff_fold LL wf o hnd P.fields (fun _ h => h)]
   simp only [List.nil_append]
-  rw [ffAdditions_eq LL wf o hnd]
+  rw [ffAdditions_eq LL wf o data]
 
 end Utv.C05
